@@ -1,6 +1,6 @@
 #!/bin/sh
-# usage: confirm_mutant.sh <worktree> <mdir name e.g. m1> <prop>  -- confirms demo/test behaviour in the scratch worktree, then stores under /verif/seeded
-wt="$1"; m="$2"; prop="$3"
+# usage: confirm_mutant.sh <worktree> <mdir name e.g. m1> <prop> [name under seeded, default the mdir name]  -- confirms demo/test behaviour in the scratch worktree, then stores under /verif/seeded
+wt="$1"; m="$2"; prop="$3"; dst="${4:-$2}"
 cd "$wt" || exit 2
 git checkout -q -- . ; rm -rf .hypothesis
 run() { PYTHONPATH=$wt/src NUMBA_CACHE_DIR=/tmp/nbcache_confirm_$prop "$@"; }
@@ -15,6 +15,6 @@ same=no; cmp -s /tmp/passset_base.txt /tmp/passset_mut.txt && same=yes
 nb=$(wc -l < /tmp/passset_base.txt); nm=$(wc -l < /tmp/passset_mut.txt)
 echo "$prop/$m: demo clean exit=$d0, demo mutated exit=$d1, passing tests base=$nb mutated=$nm identical=$same"
 if [ "$d0" = 0 ] && [ "$d1" != 0 ] && [ "$same" = yes ]; then
-  d=/verif/seeded/$prop-$m; mkdir -p $d; cp _mutants/$m/patch.diff _mutants/$m/demo.py _mutants/$m/notes.md $d/ 2>/dev/null
+  d=/verif/seeded/$prop-$dst; mkdir -p $d; cp _mutants/$m/patch.diff _mutants/$m/demo.py _mutants/$m/notes.md $d/ 2>/dev/null
   echo "CONFIRMED -> $d"
 else echo "NOT CONFIRMED"; fi
